@@ -5,7 +5,7 @@ import json
 import os
 import re
 
-GEN_FILES = [("astschema", "Gen_AstSchema.v"), ("walker", "Gen_Walker.v"), ("walktables", "Gen_WalkTables.v"),
+GEN_FILES = [("astschema", "Gen_AstSchema.v"), ("walker", "Gen_Walker.v"), ("walktags", "Gen_WalkTags.v"),
              ("walkstate", "Gen_WalkState.v")]
 
 TRUSTED = [
@@ -108,7 +108,7 @@ def _st(e):
 
 PRE = """From Coq Require Import List NArith Bool.
 From RG.Ast Require Import Tree Walker WalkerProof WalkSpec WfCheck.
-From RGW Require Import Gen_AstSchema Gen_Walker Gen_WalkTables Inst_Walker.
+From RGW Require Import Gen_AstSchema Gen_Walker Gen_WalkTags Inst_Walker.
 Import ListNotations. Local Open Scope N_scope.
 """
 
